@@ -23,6 +23,8 @@
 #include "fix_mem.h"
 
 #include "upipe/ubuf_pic.h"
+#include "upipe/ubuf_block.h"
+#include "upipe/ubuf_block_mem.h"
 #include "upipe/ubuf_pic_mem.h"
 #include "upipe/ubuf_mem.h"
 #include "upipe/uref_flow.h"
@@ -50,14 +52,14 @@ const char *__asan_default_options(void) { return "quarantine_size_mb=16:thread_
 
 enum { CL_SUB, CL_MP, CL_GEN, CL_FOURCC, CL_FLOWDEF, CL_MARGIN, CL_MARGIN_ODD, CL_ALIGN, CL_ALLOC_REFUSED,
        CL_MAP_REFUSED, CL_MAP_NEG, CL_MAP_SUB, CL_MAP_MISALIGNED, CL_MAP_WRITE, CL_RESIZE_OK, CL_RESIZE_EXT,
-       CL_RESIZE_REFUSED, CL_RESIZE_GRAN, CL_CHAIN, CL_COPY, CL_COPY_EXT, CL_FIELDS, CL_FIELDS_ODD_HEIGHT, CL_DUP, CL_EXT_SHARED, CL_OUTDOM,
+       CL_RESIZE_REFUSED, CL_RESIZE_GRAN, CL_CHAIN, CL_COPY, CL_COPY_EXT, CL_FIELDS, CL_FIELDS_ODD_HEIGHT, CL_EXPORT, CL_EXPORT_SUBSAMPLED, CL_DUP, CL_EXT_SHARED, CL_OUTDOM,
        CL_TWO_MGR, CL_POOL, CL_SIZE_NOT_MULT_OF_ALIGN, CL_DEFAULT_MARGIN, CL_CLEAR, CL_CLEAR_SUB, CL_CLEAR_MULTI };
 static const char *const class_names[] = {
     "fmt_subsampled", "fmt_macropixel_gt1", "fmt_generated_planes", "fmt_fourcc_mgr", "mgr_from_flow_def",
     "margins_nonzero", "margins_odd", "align_nonzero", "alloc_not_multiple_refused",
     "map_refused", "map_negative_offset_accepted", "map_subwindow_accepted", "map_misaligned_refused", "map_write_window",
     "resize_accepted", "resize_extension_accepted", "resize_refused", "resize_misaligned_refused",
-    "resize_chain_ge2_with_extension", "copy_accepted", "copy_extending", "split_into_fields", "split_into_fields_odd_number_of_lines", "dup", "extension_on_shared",
+    "resize_chain_ge2_with_extension", "copy_accepted", "copy_extending", "split_into_fields", "split_into_fields_odd_number_of_lines", "plane_re-exported_as_block", "subsampled_plane_re-exported_as_block", "dup", "extension_on_shared",
     "out_of_domain_accepted", "two_managers_used", "pool_depth_gt0", "row_not_multiple_of_align", "default_margins",
     "window_cleared", "clear_of_partial_width_window", "clear_with_multi_octet_pattern", NULL };
 
@@ -1005,6 +1007,38 @@ static void op_fields(struct ctx *c)
     if (!c->ret) verify_all(c, "fields", what);
 }
 
+/* a plane re-exported as a block (ubuf_block_mem_alloc_from_pic, what upipe_convert_to_block does): the block starts at the first
+ * visible pixel of the plane and ends with the last visible one -- inside the plane, inside the allocation, not reaching the next plane */
+static void op_export(struct ctx *c)
+{
+    struct fmt *f = &c->f;
+    int s = pick_live(c); if (s < 0) return;
+    struct hnd *h = &c->h[s];
+    int p = tp_u8(&c->t) % f->np;
+    c->hash = vp_hash_mix(c->hash, 0xa00 + s * 8 + p);
+    size_t stride = 0; uint8_t hsub, vsub, mps; const uint8_t *q = NULL;
+    if (!ubase_check(ubuf_pic_plane_size(h->u, f->pl[p].chroma, &stride, &hsub, &vsub, &mps)) ||
+        !ubase_check(ubuf_pic_plane_read(h->u, f->pl[p].chroma, 0, 0, -1, -1, &q))) { c->ret = vp_internal(c->rep, "plane %s of the picture", f->pl[p].chroma); return; }
+    ubuf_pic_plane_unmap(h->u, f->pl[p].chroma, 0, 0, -1, -1);
+    int rows = ph(c, h, p); size_t rb = (size_t)pw(c, h, p) * mps;
+    struct ubuf *b = ubuf_block_mem_alloc_from_pic(c->fm.block_mgr, h->u, f->pl[p].chroma);
+    char what[80]; snprintf(what, sizeof what, "ubuf_block_mem_alloc_from_pic(h%d %dx%d, %s)", s, h->hm * f->mp, h->v, f->pl[p].chroma);
+    R("  %s -> %s\n", what, b ? "ok" : "NULL");
+    if (b == NULL) { FAIL("C19/domain/export", "%s fails", what); return; }
+    CL(CL_EXPORT); if (hsub > 1) CL(CL_EXPORT_SUBSAMPLED);
+    size_t bs = 0; const uint8_t *bp = NULL; int sz = -1;
+    if (!ubase_check(ubuf_block_size(b, &bs)) || !ubase_check(ubuf_block_read(b, 0, &sz, &bp))) { ubuf_free(b); FAIL("C19/domain/export", "%s: the block cannot be read", what); return; }
+    size_t want = rows > 0 ? (size_t)(rows - 1) * stride + rb : 0;
+    if ((size_t)sz != bs) { /* (one segment expected) */ }
+    if (bp != q || !inside(h, bp, bs))
+        FAIL("C19/bounds/export", "%s: the block occupies [%td, %td) of the area of %zu octets, the plane's first visible pixel is at %td", what, bp - h->base, bp - h->base + (ptrdiff_t)bs, h->asize, q - h->base);
+    else if (bs != want)
+        FAIL("C19/bounds/export", "%s: the block has %zu octets; from the first visible pixel of the plane to the last one there are %zu (%d rows, stride %zu, %zu octets per row)", what, bs, want, rows, stride, rb);
+    ubuf_block_unmap(b, 0);
+    ubuf_free(b);
+    if (!c->ret) verify_all(c, "export", what);
+}
+
 static int run(const uint8_t *tp_, size_t len, struct vp_report *rep, unsigned flags)
 {
     static struct ctx ctx;
@@ -1034,6 +1068,7 @@ static int run(const uint8_t *tp_, size_t len, struct vp_report *rep, unsigned f
         if (!any_live(c)) op = 0;
         if (op == 15 && (opb & 0x10)) { op_clear(c); continue; }
         if (op == 14 && (opb & 0x30) == 0x30) { op_fields(c); continue; }
+        if (op == 14 && (opb & 0x30) == 0x20) { op_export(c); continue; }
         switch (op) {
         case 0: op_alloc(c); break;
         case 1: case 2: case 3: case 4: op_resize(c); break;
